@@ -1,6 +1,7 @@
 package checks
 
 import (
+	"fmt"
 	"go/ast"
 	"go/token"
 	"go/types"
@@ -277,4 +278,131 @@ func checkLoadChainTermination(p *core.Program, r *core.Report, chain []flow.Fun
 	if nPipes == 0 {
 		r.OK("O15.4", "load chain: no pipe between the file and the decoders", "-", "the decoders read the file (or a buffered reader over it) directly: end of file is end of stream")
 	}
+}
+
+// checkDeferredErrorOverwrite (O15.2): a deferred function of a loader may set the named error result only when no error is
+// pending — `if closeErr != nil && err == nil { err = closeErr }`. An unconditional assignment (`err = file.Close()`)
+// replaces the decoder's "unexpected EOF" by the nil of a successful Close: every truncated file then loads "successfully".
+func checkDeferredErrorOverwrite(p *core.Program, r *core.Report, chain []flow.FuncUnit) {
+	n := 0
+	for _, u := range chain {
+		fd, ok := u.Node.(*ast.FuncDecl)
+		if !ok {
+			continue
+		}
+		obj, _ := u.Pkg.TypesInfo.Defs[fd.Name].(*types.Func)
+		fn := p.SSA.FuncValue(obj)
+		if fn == nil || fn.Blocks == nil {
+			continue
+		}
+		// the cell of a named error result: an Alloc of type *error that a Return loads from
+		errCells := map[*ssa.Alloc]bool{}
+		for _, b := range fn.Blocks {
+			ret, ok := b.Instrs[len(b.Instrs)-1].(*ssa.Return)
+			if !ok {
+				continue
+			}
+			for _, rv := range ret.Results {
+				if ld, ok := rv.(*ssa.UnOp); ok && ld.Op == token.MUL {
+					if al, ok := ld.X.(*ssa.Alloc); ok && isErrorType(al.Type().(*types.Pointer).Elem()) {
+						errCells[al] = true
+					}
+				}
+			}
+		}
+		if len(errCells) == 0 {
+			continue
+		}
+		for _, b := range fn.Blocks {
+			for _, in := range b.Instrs {
+				df, ok := in.(*ssa.Defer)
+				if !ok {
+					continue
+				}
+				mc, ok := df.Call.Value.(*ssa.MakeClosure)
+				if !ok {
+					continue
+				}
+				cl := mc.Fn.(*ssa.Function)
+				for k, bnd := range mc.Bindings {
+					al, ok := bnd.(*ssa.Alloc)
+					if !ok || !errCells[al] || k >= len(cl.FreeVars) {
+						continue
+					}
+					fv := cl.FreeVars[k]
+					for _, cb := range cl.Blocks {
+						for _, ci := range cb.Instrs {
+							st, ok := ci.(*ssa.Store)
+							if !ok || st.Addr != ssa.Value(fv) {
+								continue
+							}
+							n++
+							cn := fmt.Sprintf("%s: deferred assignment to the error result #%d", u.Name, n)
+							keeps := false
+							if jc, ok := st.Val.(*ssa.Call); ok && jc.Common().StaticCallee() != nil && jc.Common().StaticCallee().String() == "errors.Join" {
+								// errors.Join(err, cleanupErr) keeps a pending error
+								if sl, ok := jc.Common().Args[0].(*ssa.Slice); ok {
+									if arr, ok := sl.X.(*ssa.Alloc); ok {
+										for _, ref := range *arr.Referrers() {
+											if ia, ok := ref.(*ssa.IndexAddr); ok {
+												for _, rr := range *ia.Referrers() {
+													if est, ok := rr.(*ssa.Store); ok {
+														if ld, ok := est.Val.(*ssa.UnOp); ok && ld.Op == token.MUL && ld.X == ssa.Value(fv) {
+															keeps = true
+														}
+													}
+												}
+											}
+										}
+									}
+								}
+							}
+							if keeps {
+								r.OK("O15.2", cn, p.Pos(st.Pos()), "the pending error is joined with the clean-up error, not replaced")
+							} else if guardedByNilTest(cb, fv) {
+								r.OK("O15.2", cn, p.Pos(st.Pos()), "assigned only when no error is pending (err == nil on the path)")
+							} else {
+								r.Violation("O15.2", cn, p.Pos(st.Pos()), "the deferred function assigns the named error result without testing that it is nil: a pending read error (unexpected EOF of a truncated file) is replaced by the outcome of the clean-up call, so the truncated file loads without error")
+							}
+						}
+					}
+				}
+			}
+		}
+	}
+	r.Count("deferred error assignments", n)
+}
+
+// guardedByNilTest: block b is reached only through the side of a branch on which *cell == nil holds.
+func guardedByNilTest(b *ssa.BasicBlock, cell ssa.Value) bool {
+	for d := b.Idom(); d != nil; d = d.Idom() {
+		iff, ok := d.Instrs[len(d.Instrs)-1].(*ssa.If)
+		if !ok {
+			continue
+		}
+		bo, ok := iff.Cond.(*ssa.BinOp)
+		if !ok || (bo.Op != token.EQL && bo.Op != token.NEQ) {
+			continue
+		}
+		isCellLoad := func(v ssa.Value) bool {
+			ld, ok := v.(*ssa.UnOp)
+			return ok && ld.Op == token.MUL && ld.X == cell
+		}
+		isNil := func(v ssa.Value) bool {
+			c, ok := v.(*ssa.Const)
+			return ok && c.Value == nil
+		}
+		if !((isCellLoad(bo.X) && isNil(bo.Y)) || (isCellLoad(bo.Y) && isNil(bo.X))) {
+			continue
+		}
+		side := 0
+		if bo.Op == token.NEQ {
+			side = 1
+		}
+		s := d.Succs[side]
+		if (s == b || s.Dominates(b)) && len(s.Preds) == 1 {
+			return true
+		}
+	}
+	return false
 }
